@@ -28,6 +28,8 @@ type Obligation struct {
 	Cover      bool   // must be SAT
 	Inputs     []InputSym
 	Outs       []InputSym
+	RawQuery   string // complete SMT-LIB text (bit-vector lemmas); unsat = lemma holds
+	RawVars    int
 	GroundTest string // Go statements that print VRF-RESULT VIOLATED when the real package shows the violation
 	fc         *FuncCtx
 	// results
@@ -242,6 +244,9 @@ func (o *Obligation) QueryWith(models bool, extra []string) string {
 }
 
 func (o *Obligation) queryOpts(models bool, extra []string, dropQuant bool) string {
+	if o.RawQuery != "" {
+		return o.RawQuery
+	}
 	fc := o.fc
 	var b strings.Builder
 	if models {
